@@ -90,6 +90,11 @@ def resolve(name, params, d, rng):
         out[key] = layout(D.spd_matrix(rng, d, cond=20.0).astype(np.float32))
       else:
         out[key] = layout(D.spd_matrix(rng, d, cond=20.0))
+    elif val == '@aniso':
+      # a strongly anisotropic transformation (it reorders neighbours)
+      Q = D.random_orthogonal(rng, d)
+      sv = 10.0 ** rng.uniform(-3, 0, size=d)
+      out[key] = layout((Q * sv).dot(D.random_orthogonal(rng, d))[:k])
     elif val == '@randn':
       if rng.randint(4) == 0:
         # integer-typed array (full row rank is not required of an init)
